@@ -837,7 +837,14 @@ impl<'tcx> Cx<'tcx> {
                     }
                     let mut items = Vec::new();
                     for ai in tcx.associated_items(did).in_definition_order() {
-                        items.push(J::obj().fs("name", ai.name().to_string()).fs("did", self.path(ai.def_id)).done());
+                        let mut io = J::obj().fs("name", ai.name().to_string()).fs("did", self.path(ai.def_id));
+                        if matches!(tcx.def_kind(ai.def_id), DefKind::AssocTy) {
+                            // the value of an associated type of this impl (`type Weight = f32;`): lets the analysis normalise `<T as Tr>::Weight`
+                            let t = tcx.type_of(ai.def_id).instantiate_identity().skip_norm_wip();
+                            let tj = self.ty_json(t);
+                            io = io.f("ty", tj);
+                        }
+                        items.push(io.done());
                     }
                     impls.push(o.f("items", J::Arr(items)).done());
                 }
